@@ -176,7 +176,7 @@ def obligations(tier):
         Ob('desc_history_2', 'S', ob_desc_history, 'PLSSDesc: histories of 2 operations', functions=FD, weight=8,
            timeout=3000, params={'nops': 2, 'cfgs': ('parse_qq',) if q else ('', 'parse_qq'), 'cap': 2700, 'free_p': not q}),
         Ob('tract_history_2', 'S', ob_tract_history, 'Tract: histories of 2 operations', functions=FT, weight=6,
-           timeout=3000, params={'nops': 2, 'cfgs': ('', 'parse_qq') if q else ('', 'parse_qq', 'parse_qq,clean_qq'), 'cap': 2700,
+           timeout=3000, params={'nops': 2, 'cfgs': ('', 'parse_qq', 'parse_qq,clean_qq'), 'cap': 2700,
                                  'free_p': not q}),
     ]
     if not q:
